@@ -24,12 +24,21 @@ package newick
 //@   ensures @C05,C06,C11 result.1 == nil ==> len(result.0) >= 1
 //@   ensures @C05,C06,C11 result.1 == nil && result.0[0] != 39 ==> forall k int :: 0 <= k && k < len(result.0) ==> !nwWS(result.0[k]) && result.0[k] != 39
 //@   ensures @C05,C06,C11 result.1 == nil && result.0[0] != 39 && len(result.0) >= 2 ==> forall k int :: 0 <= k && k < len(result.0) ==> !nwSep(result.0[k])
+// an unquoted name/number token is a MAXIMAL run of bytes that are not white space, separators or quotes, preceded only by
+// white space: it is followed by the end of the stream, a (consumed) white-space byte or an (unread) separator
+//@   let plain := result.1 == nil && result.0[0] != 39 && !nwSep(result.0[0])
+//@   let e := nwWS(S.in[S.pos - 1]) ? S.pos - 1 : S.pos
+//@   ensures @C05,C06,C11 plain ==> S.pos == S.end || nwWS(S.in[S.pos - 1]) || nwSep(S.in[S.pos])
+//@   ensures @C05,C06,C11 plain ==> p0 <= e - len(result.0) && forall k int :: 0 <= k && k < len(result.0) ==> result.0[k] == S.in[e - len(result.0) + k]
+//@   ensures @C05,C06,C11 plain ==> forall j int :: p0 <= j && j < e - len(result.0) ==> nwWS(S.in[j])
 //@   loop 1
 //@     invariant r != nil
 //@     invariant p0 <= r.r.pos && r.r.pos <= S.end
 //@     invariant r.r.fired == old(r.r.fired)
 //@     invariant len(r.b.out) > 0 ==> r.r.pos > p0
 //@     invariant quote ==> len(r.b.out) > 0 && r.b.out[0] == 39
+//@     invariant !quote ==> p0 <= r.r.pos - len(r.b.out) && forall k int :: 0 <= k && k < len(r.b.out) ==> r.b.out[k] == S.in[r.r.pos - len(r.b.out) + k]
+//@     invariant !quote ==> forall j int :: p0 <= j && j < r.r.pos - len(r.b.out) ==> nwWS(S.in[j])
 //@     invariant !quote ==> forall k int :: 0 <= k && k < len(r.b.out) ==> !nwWS(r.b.out[k]) && !nwSep(r.b.out[k]) && r.b.out[k] != 39
 //@     decreases S.end - r.r.pos
 
